@@ -80,7 +80,7 @@ fn run_job(job: &Value, scratch: &str) -> Value {
     let _ = std::fs::remove_file(&smt_file);
     // SAFETY: the worker is single threaded
     unsafe {
-        for k in ["REFSMT_SCHEDULE", "REFSMT_DEFAULT", "REFSMT_COUNT", "REFSMT_FAULT", "REFSMT_LOG", "REFSMT_LEAF_CAP"] {
+        for k in ["REFSMT_SCHEDULE", "REFSMT_DEFAULT", "REFSMT_COUNT", "REFSMT_FAULT", "REFSMT_LOG", "REFSMT_LEAF_CAP", "REFSMT_ARRAY_STYLE"] {
             std::env::remove_var(k);
         }
         std::env::set_var("REFSMT_TRACE", &trace);
